@@ -215,7 +215,7 @@ def dir_sha(odir):
                     raw = json.dumps([[str(x.entropy), list(x.spawn_key), x.pool_size, x.n_children_spawned] for x in sseq]
                                      + [r.bit_generator.state for r in rng], sort_keys=True, default=str).encode()
                 except Exception:
-                    pass
+                    raw = b"<unloadable random state>"     # a torn prefix; its bytes are not stable either
             h.update(raw)
             h.update(b"\0")
     return h.hexdigest()
